@@ -29,8 +29,14 @@ pub open spec fn limbs(s: Seq<u64>) -> nat
 }
 pub open spec fn pow_w(k: nat) -> nat decreases k { if k == 0 { 1 } else { W() * pow_w((k - 1) as nat) } }
 
+/// little-endian digits of a bnum unsigned integer (T-bnum): N words whose value is uv
+pub uninterp spec fn udigits<const N: usize>(x: BUint<N>) -> Seq<u64>;
+#[verifier::external_body]
+pub proof fn axiom_udigits<const N: usize>(x: BUint<N>)
+    ensures udigits(x).len() == N, limbs(udigits(x)) == uv(x)
+{}
 pub assume_specification<const N: usize> [ BUint::<N>::digits ] (a: &BUint<N>) -> (r: &[u64; N])
-    ensures limbs(r@) == uv(*a);
+    ensures r@ == udigits(*a), limbs(r@) == uv(*a);
 
 pub assume_specification [u64::overflowing_add] (a: u64, b: u64) -> (r: (u64, bool))
     ensures r.0 as nat + (if r.1 { W() } else { 0 }) == a as nat + b as nat;
@@ -392,14 +398,99 @@ pub proof fn lemma_limbs_top(x: Seq<u64>, sz: int)
         lemma_limbs_take_step(hi, 0);
         assert(hi.take(0) =~= Seq::<u64>::empty());
         lemma_limbs_empty(); lemma_pow_w_unfold(0);
-        lemma_mul_nonneg(pow_w(1) as int, 0);
+        lemma_mul_one(pow_w(1) as int);
+        lemma_mul_one(hi[0] as int);
         assert(hi[0] == x[sz]);
+        assert(limbs(hi.take(1)) == limbs(hi.take(0)) + pow_w(0) * (hi[0] as nat));
+        assert(limbs(hi) == limbs(hi.take(1)) + pow_w(1) * limbs(hi.skip(1)));
         assert(limbs(hi) == x[sz] as nat);
     } else {
         assert(hi =~= Seq::<u64>::empty());
         lemma_limbs_empty();
-        lemma_mul_nonneg(pow_w(sz as nat) as int, 0);
+        lemma_mul_one(pow_w(sz as nat) as int);
     }
+}
+
+
+/// a value below W^k occupies k words
+pub proof fn lemma_limbs_small_words(m: Seq<u64>, k: int)
+    requires 0 <= k <= m.len(), limbs(m) < pow_w(k as nat)
+    ensures limbs(m.take(k)) == limbs(m), forall|j: int| k <= j < m.len() ==> m[j] == 0
+{
+    lemma_limbs_take_small(m, k);
+    lemma_limbs_zero_words(m.skip(k));
+    assert forall|j: int| k <= j < m.len() implies m[j] == 0 by { assert(m.skip(k)[j - k] == m[j]); }
+}
+
+/// converse: high words zero ==> value is the value of the low k words
+pub proof fn lemma_limbs_high_zero(m: Seq<u64>, k: int)
+    requires 0 <= k <= m.len(), forall|j: int| k <= j < m.len() ==> m[j] == 0
+    ensures limbs(m.take(k)) == limbs(m), limbs(m) < pow_w(k as nat)
+{
+    lemma_limbs_split(m, k);
+    assert forall|j: int| 0 <= j < m.skip(k).len() implies m.skip(k)[j] == 0 by { assert(m.skip(k)[j] == m[j + k]); }
+    lemma_limbs_zero(m.skip(k));
+    lemma_mul_nonneg(pow_w(k as nat) as int, 0);
+    lemma_limbs_bound(m.take(k));
+}
+
+/// (a - n) * r ≡ a * r (mod n)
+pub proof fn lemma_sub_modulus_mul(a: int, n: int, r: int)
+    requires n > 0
+    ensures ((a - n) * r) % n == (a * r) % n, ((a + n) * r) % n == (a * r) % n
+{
+    lemma_distrib_r_sub(a, n, r);
+    lemma_distrib_r(a, n, r);
+    vstd::arithmetic::div_mod::lemma_mod_multiples_vanish(-r, a * r, n);
+    vstd::arithmetic::div_mod::lemma_mod_multiples_vanish(r, a * r, n);
+    lemma_mul_comm(n, r); lemma_mul_comm(n, -r);
+    assert(n * (-r) == -(n * r)) by (nonlinear_arith);
+}
+
+
+/// conditional subtraction / addition of the modulus computes the residue
+pub proof fn lemma_mod_range(a: int, n: int)
+    requires n > 0
+    ensures
+        0 <= a < n ==> a % n == a,
+        n <= a < 2 * n ==> a % n == a - n,
+        -n <= a < 0 ==> a % n == a + n,
+{
+    if 0 <= a < n { vstd::arithmetic::div_mod::lemma_small_mod(a as nat, n as nat); }
+    if n <= a < 2 * n { vstd::arithmetic::div_mod::lemma_fundamental_div_mod_converse(a, n, 1, a - n); }
+    if -n <= a < 0 { vstd::arithmetic::div_mod::lemma_fundamental_div_mod_converse(a, n, -1, a + n); }
+}
+
+
+/// One outer round of multiprecision REDC: m gains m_ninv * n * W^i, the quotient grows accordingly.
+pub proof fn lemma_redc_round(l0: int, l1: int, pis: int, pi: int, w: int, carryn: int, mn: int, nn: int, xx: int, q: int, q1: int, ps: int)
+    requires
+        l1 + pis * carryn == l0 + pi * (mn * nn),
+        l0 == xx + q * nn,
+        q1 == q + pi * mn,
+        0 <= q < pi, 0 <= mn < w, pi > 0, w > 0, nn > 0,
+        w * pi <= ps, 0 <= xx < nn * ps,
+    ensures
+        l1 + pis * carryn == xx + q1 * nn,
+        0 <= q1 < w * pi,
+        xx + q1 * nn < 2 * (nn * ps),
+{
+    lemma_distrib_scaled(q, pi, mn, nn);
+    lemma_mul_le(mn, w - 1, pi);
+    lemma_distrib_l_sub(pi, w, 1);
+    lemma_mul_comm(pi, w);
+    lemma_mul_nonneg(pi, mn);
+    lemma_mul_lt_pos(q1, ps, nn);
+    lemma_mul_comm(nn, ps);
+}
+
+pub proof fn lemma_pow_w_mono(a: nat, b: nat)
+    requires a <= b
+    ensures pow_w(a) <= pow_w(b), pow_w(b) == pow_w(a) * pow_w((b - a) as nat)
+{
+    lemma_pow_w_add(a, (b - a) as nat);
+    lemma_pow_w_pos(a); lemma_pow_w_pos((b - a) as nat);
+    lemma_mul_le(1, pow_w((b - a) as nat) as int, pow_w(a) as int);
 }
 
 } // verus!
